@@ -107,9 +107,13 @@ def check(run):
     # functions shared by both subtrees (e.g. _evaluate_code) read on behalf of guards too: include reads of all functions reachable outside
     from .c16 import derived_caches
     memo = set(derived_caches(prog))
+    from .c02 import interpreter_memo_findings
+    imemo = set(interpreter_memo_findings(prog)[0])
     for (c, fld), sites in sorted(W.items()):
         if c == 'Statechart' and fld in memo:
             continue      # memoised query result, governed by the invalidation rule C16.7
+        if c == 'Interpreter' and fld in imemo:
+            continue      # memo on the interpreter, dropped at every write of what it is computed from (C02.10, also run below)
         real = [(f, kind, node) for f, kind, node in sites
                 if not (f.name == '__init__' and f.cls is not None and (c == f.cls.name or prog.is_subclass(f.cls.name, c))) and not c.startswith('?')]
         if not real:
@@ -128,6 +132,10 @@ def check(run):
         run.check(not readers, r, real[0][0].short, 'contract-side write %s.%s not read elsewhere' % (c, fld),
                   'written while checking contracts and read by %s: checking contracts can change the run' % sorted(set(readers))[:4], real[0][2])
     run.floor(len(W), 1, r, 'written fields of the contract subtree')
+
+    # a memo on the interpreter that a contract condition can fill (active(..) reads the configuration) must not outlive what it was computed from
+    from .c02 import rules_memo
+    run.guard(rules_memo, run, 'C09.4')
 
     r = run.rule('C09.3', 'the contract subtree reaches no event raising, queue mutation or code execution')
     names = prog.reach_names(roots)
